@@ -30,7 +30,7 @@ class AEnv:
         self.world = world
         self.faults = 0
         self.injected = []
-        self.fault_kinds = {k: list(v) for k, v in sim.FAULTS.items()}
+        self.fault_kinds = {k: list(v) for k, v in sim.DEFAULT_FAULT_KINDS.items()}
         self.time = 0.0
 
     def note_extra_info(self, tr, info):
